@@ -297,3 +297,57 @@ func (a *Analyzer) WholeDocumentDecoded() []RuleResult {
 	out = append(out, RuleResult{"B-EOF", "(module)", "stream-decoding call sites", "", n >= 1, fmt.Sprintf("%d call sites", n)})
 	return out
 }
+
+// NoTextSearchInDocuments (B-RAWPEEK): the schema decoders (the UnmarshalJSON methods of pkg/schemas) receive the raw text of a JSON
+// value. Looking at its FIRST byte (a value starts without white space) or handing it to encoding/json is independent of how the
+// document is formatted; SEARCHING the text (Contains / Index / Count / regexp, on the bytes or on their string conversion) is not:
+// `"definitions":` does not occur in `"definitions" : {…}`, and a key text may also occur inside a string value. Equivalent spellings
+// of one schema would be read differently.
+func (a *Analyzer) NoTextSearchInDocuments() []RuleResult {
+	var out []RuleResult
+	n := 0
+	search := map[string]bool{}
+	for _, pk := range []string{"bytes", "strings"} {
+		for _, fn := range []string{"Contains", "ContainsAny", "ContainsRune", "Index", "IndexAny", "IndexByte", "IndexRune", "LastIndex", "Count", "Cut", "Split", "SplitN", "Fields"} {
+			search[pk+"."+fn] = true
+		}
+	}
+	for _, f := range a.P.Funcs {
+		name := a.P.FuncName(f)
+		if !strings.Contains(name, "pkg/schemas.") || !strings.HasSuffix(name, ").UnmarshalJSON") || len(f.Params) < 2 {
+			continue
+		}
+		n++
+		tainted := map[ssa.Value]bool{f.Params[1]: true}
+		work := []ssa.Value{f.Params[1]}
+		ok, why := true, "the raw text is only indexed at fixed positions, measured, compared as a whole or handed to encoding/json"
+		pos := a.P.Pos(f.Pos())
+		for len(work) > 0 {
+			v := work[len(work)-1]
+			work = work[:len(work)-1]
+			for _, r := range refs(v) {
+				switch x := r.(type) {
+				case *ssa.Convert, *ssa.ChangeType, *ssa.Slice, *ssa.Phi, *ssa.MakeInterface:
+					if val := x.(ssa.Value); !tainted[val] {
+						tainted[val] = true
+						work = append(work, val)
+					}
+				case ssa.CallInstruction:
+					callee := shortCallee(x)
+					if search[callee] || strings.HasPrefix(callee, "regexp.") || strings.HasPrefix(callee, "(*regexp.Regexp).") {
+						ok, why, pos = false, "the raw text of the document reaches "+callee+": a search in the text depends on insignificant white space and on what string values happen to contain, so equivalent spellings of the schema are read differently", a.P.InstrPos(x.(ssa.Instruction))
+					}
+					if callee == "bytes.TrimSpace" || callee == "strings.TrimSpace" || callee == "bytes.NewReader" || callee == "bytes.NewBuffer" {
+						if val, isVal := x.(ssa.Value); isVal && !tainted[val] {
+							tainted[val] = true
+							work = append(work, val)
+						}
+					}
+				}
+			}
+		}
+		out = append(out, RuleResult{"B-RAWPEEK", name, "the document's raw text is not searched", pos, ok, why})
+	}
+	out = append(out, RuleResult{"B-RAWPEEK", "(module)", "schema decoders", "", n >= 3, fmt.Sprintf("%d UnmarshalJSON methods in pkg/schemas", n)})
+	return out
+}
